@@ -1191,6 +1191,20 @@ func TestCheck(t *testing.T) {
 		}
 	})
 
+	saf := signatureAlgorithmForms()
+	r.Set("a_signature_algorithm_forms", len(saf))
+	enum.ParFor(len(saf), nil, func(i int) {
+		pan, msg, stack := enum.Catch(func() {
+			c.checkInput(saf[i].DER, caseDesc{Part: "a:signature-algorithm-forms", Seed: saf[i].Name}, false)
+			if _, err := sx.ParseCertificate(saf[i].DER); err == nil {
+				c.conformCert(saf[i]) // field by field against crypto/x509
+			}
+		})
+		if pan {
+			r.Violation("harness-panic", msg+"\n"+stack, saf[i].Name)
+		}
+	})
+
 	phase("a_small")
 	// ---------------- (b)
 	var seeds []*mseed
